@@ -30,6 +30,10 @@ def gen_scenario(rng, tier):
             defs.append(gen.gen_seq_def(rng))
         else:
             defs.append(gen.gen_simple_def(rng))
+    if rng.random() < 0.12:
+        # two DISTINCT search objects with the same patterns, hint and tag: both run, both report
+        import copy
+        defs.append(copy.deepcopy(rng.choice(defs)))
     regs = [[i, 0] for i in range(len(defs))]
     if rng.random() < 0.15:
         regs.append([rng.randrange(len(defs)), 0])     # same object registered twice
